@@ -15,6 +15,10 @@ What is modelled, function by function:
 * `selectLoop`            — the explicit-selection branch of `txToOutputs` (tree with fix 80523df: an outpoint that is
                             selected twice is refused; `selectLoopUnfixed` is the code before that commit).
 * `createTx`              — `txToOutputs` up to (not including) signing.
+* `txCreator`             — the request loop of `(*Wallet).txCreator`: `holdUnlock()` first (a locked wallet refuses
+                            with `ErrLocked` unless the whole manager is watch-only), then `txToOutputs`.
+* `isWatchOnlyAccount`, `signs` — the signing decision at the end of `txToOutputs` (`Manager.IsWatchOnlyAccount` is
+                            `acctKeyPriv == nil`, which `Manager.Lock` makes true for EVERY account).
 * `publishAccepted`       — effect on the wallet view of recording the transaction (`reliablyPublishTransaction`).
 
 Core Lean only; everything is total and structurally recursive.
@@ -93,6 +97,8 @@ inductive Err
   | insufficient
   | notEligible (op : OutPoint)
   | duplicateSelected (op : OutPoint)
+  /-- `waddrmgr.ErrLocked` from `holdUnlock()` in `txCreator` -/
+  | locked
 deriving DecidableEq, Repr
 
 /-! ## wallet.confirms / confirmed -/
@@ -294,6 +300,31 @@ def createTx (V : View) (r : Request) : Except Err Authored :=
 /-- `txToOutputs` before fix 80523df. -/
 def createTxUnfixed (V : View) (r : Request) : Except Err Authored :=
   createTxWith (fun E s => selectLoopUnfixed E s []) V r
+
+/-! ## txCreator: lock state and the signing decision -/
+
+/-- What `txCreator` / the tail of `txToOutputs` look at besides the view and the request. -/
+structure LockState where
+  /-- `Manager.IsLocked()` as `walletLocker` answers `holdUnlock` -/
+  locked : Bool
+  /-- `Manager.WatchOnly()`: the whole wallet has no private keys -/
+  managerWatchOnly : Bool
+  /-- the requested account was created from a seed / private key (its row holds an encrypted private key) -/
+  acctHasPriv : Bool
+deriving DecidableEq, Repr
+
+/-- `Manager.IsWatchOnlyAccount` = `acctInfo.acctKeyPriv == nil`.  `Manager.Lock` zeroes and drops `acctKeyPriv` of
+every cached account, so while the manager is locked every account *looks* watch-only (quirk kept). -/
+def isWatchOnlyAccount (ls : LockState) : Bool := ls.locked || !ls.acctHasPriv
+
+/-- `txToOutputs`: `AddAllInputScripts` + `validateMsgTx` run unless this is a dry run or the account looks
+watch-only. -/
+def signs (ls : LockState) (dryRun : Bool) : Bool := !dryRun && !isWatchOnlyAccount ls
+
+/-- One iteration of `(*Wallet).txCreator`: unless the manager is watch-only, `holdUnlock()` must succeed before
+`txToOutputs` is entered (also for dry runs); a locked wallet answers `ErrLocked`. -/
+def txCreator (ls : LockState) (V : View) (r : Request) : Except Err Authored :=
+  if !ls.managerWatchOnly && ls.locked then .error .locked else createTx V r
 
 /-- The wallet view after the created transaction was recorded (`reliablyPublishTransaction` → `addRelevantTx`):
 its inputs are spent by a known transaction, its own outputs (`newCoins`: change and payments to own addresses) are
